@@ -104,7 +104,7 @@ Proof.
   assert (Body : forall p', pfmt p' = pfmt p -> hunks p' = hunks p -> RO (body_if true p' s) (fun _ => False)).
   { intros p' H1 H2. unfold body_if. rewrite (Hbad p' H1 H2). apply RO_lift. intros a Ha. discriminate. }
   destruct (exists_ m ftp && negb (is_regular_file m ftp)); [apply RO_bind_throw; apply Body; reflexivity|].
-  destruct (N.eqb (N.land (get_permissions m outf) write_mask) 0 && match read_only o with ROFail => true | _ => false end);
+  destruct (N.eqb (N.land (effective_perms st m outf) write_mask) 0 && match read_only o with ROFail => true | _ => false end);
     [apply RO_bind_throw; apply Body; reflexivity|].
   eapply RO_bind with (Q := fun _ => True).
   { destruct (match find (fun d => str_eqb (d_dest d) ftp) (rev (deferred_writes st)) with
